@@ -183,9 +183,15 @@ def execute(version, script, token, user_plug, seed, thr_of=None, keybits=1024, 
                 if thr is not None and 8 <= thr <= 4096:
                     target = thr + rng.choice([-1, 0, 1])
                     data = bytes((i * 31 + 7) % 256 for i in range(max(0, target - 2 - len(P.venc(pkt.message_id)))))
+                how = rng.randrange(3)
+                if how == 2:
+                    data = b''                      # a successful answer with an empty payload
                 info.setdefault('plug_data', []).append(data)
-                c.write_packet(serverbound.login.PluginResponsePacket(
-                    message_id=pkt.message_id, successful=True, data=data))
+                if how == 0:
+                    resp = serverbound.login.PluginResponsePacket(message_id=pkt.message_id, successful=True, data=data)
+                else:                               # success is implied by giving data (the documented short form)
+                    resp = serverbound.login.PluginResponsePacket(message_id=pkt.message_id, data=data)
+                c.write_packet(resp)
                 raise IgnorePacket
             c.register_packet_listener(take_over, clientbound.login.PluginRequestPacket, early=True)
         if second is not None:
